@@ -329,6 +329,29 @@ func c18Case(w *core.W, j int) {
 			w.Violation(keyf("accepts-other-signer-name"), "the signed message verifies although the key's owner differs from the signer name", wit)
 		}
 		w.Count("key_alterations", 2)
+		// the same KEY value used again after its fields were replaced in place (an entry of a
+		// long-lived key table rolled over): what counts is what the KEY holds when Verify is called
+		if key2.KeyTag() != 0 {
+			live := &dns.KEY{DNSKEY: *dns.Copy(k.Key).(*dns.DNSKEY)}
+			live.Hdr.Rrtype = dns.TypeKEY
+			if verr, ok := verify(sig, live, out); ok && verr == nil {
+				live.PublicKey = key2.PublicKey
+				sigTag := *sig
+				sigTag.KeyTag = live.KeyTag() // the tag check is not what this is about
+				if verr, ok := verify(&sigTag, live, out); ok && verr == nil {
+					w.Violation(keyf("accepts-other-key/replaced-in-place"), "after the KEY's public key was replaced in place by another key's, a message signed with the old key still verifies against it", wit)
+				}
+				s6 := &dns.SIG{RRSIG: dns.RRSIG{KeyTag: live.KeyTag(), SignerName: keyName.Pres(), Algorithm: alg, Inception: now - 7200, Expiration: now + 7200}}
+				m6 := m.Copy()
+				m6.Compress = m.Compress
+				if o6, err := s6.Sign(k2.Priv, m6); err == nil {
+					if verr, ok := verify(s6, live, o6); ok && verr != nil {
+						w.Violation(keyf("own-signature-rejected/key-replaced-in-place"), fmt.Sprintf("a message signed with the key the KEY now holds is rejected: %v", verr), wit)
+					}
+				}
+				w.Count("keys_replaced_in_place", 1)
+			}
+		}
 		// a KEY of every other algorithm family published under the signer's name: an error, not a panic
 		for _, oa := range allAlgs {
 			if oa == alg {
